@@ -427,8 +427,11 @@ func runC07(cfg *vh.Config) error {
 		Pan any
 	}
 	type declRes struct {
-		C      compiled
-		Prints []printRes
+		C         compiled
+		Prints    []printRes
+		LintNames []string
+		Lints     []linted
+		All       linted
 	}
 	declAll := parallel(len(decls), "decl", caseNo,
 		func(i int) any { return map[string]any{"decl": decls[i].Name, "files": decls[i].Files} },
@@ -438,6 +441,16 @@ func runC07(cfg *vh.Config) error {
 				_, perr, ppan := safePrint(f)
 				r.Prints = append(r.Prints, printRes{perr, ppan})
 			}
+			// the lint / LSP entry points on the same valid declaration: LintFile of every j5s file (each on a
+			// fresh set) and LintAll. Declarations with several output files (entities, services and topics
+			// referring to types of their own file) take a path of their own through LintFile.
+			for _, fn := range sortedFileNames(decls[i].Files) {
+				if strings.HasSuffix(fn, ".j5s") {
+					r.LintNames = append(r.LintNames, fn)
+					r.Lints = append(r.Lints, lintOnce(decls[i].Files, fn))
+				}
+			}
+			r.All = lintAllOnce(decls[i].Files)
 			return r
 		})
 	for di, d := range decls {
@@ -477,6 +490,31 @@ func runC07(cfg *vh.Config) error {
 					res.Fail(vh.Failure{Case: caseNo, Stream: "decl", Sig: fmt.Sprintf("C07 decl %s: printer error %s", d.Name, errClass(pr.Err.Error())), Clause: "accepted", Input: in, Got: pr.Err.Error()})
 				}
 			}
+		}
+		// the lint path on the same declaration: never panics or hangs; a package that compiles is not failed by the
+		// lint path with a hard error (LintFile / LintAll "report, not fail": the accepted package links there too)
+		{
+			lintJudge := func(call, file string, l linted) {
+				lin := map[string]any{"decl": d.Name, "files": d.Files, "call": call, "file": file}
+				switch {
+				case l.TimedOut:
+					res.Fail(vh.Failure{Case: caseNo, Stream: "decl", Sig: fmt.Sprintf("C07 decl %s: %s hangs", d.Name, call), Clause: "never hangs (lint path)", Input: lin, Got: "timeout"})
+				case l.Panic != nil:
+					res.Fail(vh.Failure{Case: caseNo, Stream: "decl", Sig: fmt.Sprintf("C07 decl %s: %s panic %s", d.Name, call, errClass(fmt.Sprint(l.Panic))), Clause: "never panics (lint path)", Input: lin, Got: fmt.Sprint(l.Panic)})
+				case l.Err != nil && c.Err == nil && c.Panic == nil && !c.TimedOut:
+					res.Count("decl_lint_hard_err")
+					res.Fail(vh.Failure{Case: caseNo, Stream: "decl", Sig: fmt.Sprintf("C07 decl %s: %s fails on a package that compiles (%s)", d.Name, call, truncate(errClass(l.Err.Error()), 60)), Clause: "every package within the documented language is accepted and links (lint / LSP path: reports, does not fail)", Input: lin, Got: l.Err.Error()})
+				case l.Err == nil && len(l.Pos) > 0 && c.Err == nil && c.Panic == nil && !c.TimedOut:
+					res.Count("decl_lint_report_on_accepted")
+				res.Sample(map[string]any{"stream": "decl", "decl": d.Name, "call": call, "lint_report_on_accepted_package": truncate(l.Human, 200)}, 6)
+				default:
+					res.Count("decl_lint_ok")
+				}
+			}
+			for li, l := range declAll[di].Lints {
+				lintJudge("LintFile", declAll[di].LintNames[li], l)
+			}
+			lintJudge("LintAll", "", declAll[di].All)
 		}
 		caseNo++
 	}
